@@ -94,7 +94,9 @@ def gen_cases(rng, tier, models):
                             if rng.random() < 0.7:
                                 prm.append(["num", rng.choice(decgen.NUMFORMS)])
                             else:
-                                w = rng.choice(["dm", "DtoKpipipi_v1", "x" + "".join(rng.choice(ALPHA_TAIL) for _ in range(3)), "file.dat", "yes"])
+                                w = rng.choice(["dm", "DtoKpipipi_v1", "x" + "".join(rng.choice(ALPHA_TAIL) for _ in range(3)), "file.dat", "yes",
+                                                # words Python's float() would accept: they are words, reported verbatim
+                                                "nan", "inf", "Infinity", "-inf", "NaN"])
                                 # a word directly after a number must not look like a model name; fine for these
                                 prm.append(["word", w])
                     lines.append({"bf": rng.choice(decgen.NUMFORMS), "fs": fs, "photos": rng.random() < 0.33, "model": mdl, "params": prm})
